@@ -22,10 +22,12 @@ Class(e) == IF e.n = -1 /\ e.off > 0 THEN "remainder_after_offset"
             ELSE IF e.n = -1 THEN "whole_buffer" ELSE "explicit_length"
 
 MonStep(e) ==
-    IF e.e # "Chk" \/ ~InDomain(SrcOf(e), e.off, e.n) THEN [ok |-> TRUE, why |-> "", sig |-> ""]
+    IF e.e # "Chk" THEN [ok |-> TRUE, why |-> "", sig |-> ""]
+    ELSE LET s == SrcOf(e) IN
+    IF ~InDomain(s, e.off, e.n) THEN [ok |-> TRUE, why |-> "", sig |-> ""]
     ELSE IF e.abort THEN [ok |-> FALSE, why |-> "read outside the permitted range (" \o e.san \o ")",
                           sig |-> "chk:" \o Class(e) \o ":memory_error"]
-    ELSE [ok |-> e.ret = Expected(SrcOf(e), e.off, e.n),
+    ELSE [ok |-> e.ret = Expected(s, e.off, e.n),
           why |-> "returned value is not the byte sum mod 256",
           sig |-> "chk:" \o Class(e) \o ":wrong_sum"]
 
